@@ -241,7 +241,41 @@ func runFz(c *hx.Ctx, r *hx.Rng) {
 	fzHop(c, 2, &q2, out, out.path)
 }
 
+// fzFixed: the boundary chains, every run (deterministic): a MOSN -> MOSN chain whose hops both rewrite, and single hops on
+// requests that already carry the original-path header (equal / different / empty), the host variable and the auto-rewrite header.
+func fzFixed(c *hx.Ctx) {
+	app := func(k, v string, a int) parser { return parser{adds: []add{{k, v, a}}} }
+	for _, pre := range []struct {
+		has bool
+		v   string
+	}{{false, ""}, {true, "/api/users"}, {true, "/forged"}, {true, ""}} {
+		for _, kind := range []string{"p", "r"} {
+			q1 := fzRoute{kind: "p", match: "/api", prw: "/v2", hostRw: "up.example"}
+			if kind == "r" {
+				q1 = fzRoute{kind: "p", match: "/api", hasRe: true, re: "^/api", sub: "/v2", autoHdr: "x-fwd-host"}
+			}
+			in := fzReq{hdrs: map[string]string{"x-fwd-host": "fwd.example", "x-a": "0"}, path: "/api/users", hasPath: true, host: "client.host", hasHost: true}
+			if pre.has {
+				in.hdrs[types.HeaderOriginalPath] = pre.v
+			}
+			out, ok := fzHop(c, 1, &q1, in, "/api/users")
+			if !ok {
+				continue
+			}
+			q2 := fzRoute{kind: "p", match: "/v2", prw: "/svc", route: app("x-a", "1", 1)}
+			out2, ok := fzHop(c, 2, &q2, out, out.path)
+			if !ok {
+				continue
+			}
+			// a third hop that removes the recorded header by configuration and does not rewrite
+			q3 := fzRoute{kind: "p", match: "/", vhost: parser{rems: []string{types.HeaderOriginalPath}}, autoHdr: types.HeaderOriginalPath}
+			fzHop(c, 2, &q3, out2, out2.path)
+		}
+	}
+}
+
 func runPart3(c *hx.Ctx) {
+	fzFixed(c)
 	for i := 0; i < c.N(2500, 40000); i++ {
 		runFz(c, c.Rng)
 	}
